@@ -1,5 +1,6 @@
 import Efp.Proofs.Val
 import Efp.Props.C03
+import Efp.Theory.Incr
 /-!
 # C06 — a what-if simulation computes what really making the change would
 
@@ -11,6 +12,10 @@ A dated simulation (i) cuts every hourly ancestor that is not recomputed at the 
 * The rules are *causal*: every series primitive the rules use maps series without hours before
   the date to series without hours before the date (`KeysGe` lemmas), so simulated series contain
   no hour before the date when every input still has hours at/after it.
+  At system level (`simulated_values_start_at_date`): for **any** rule system whose rules propagate
+  "no hour before the date" from their reads to their result, once the ancestors outside the chain
+  have been cut at the date every recomputed value has no hour before it — the exceptions found on
+  the real code (D20–D22, D26) are exactly the cases in which an ancestor is *not* cut.
 * The date check and the twin pairing are stated on their models.
 -/
 namespace Efp.Props.C06
@@ -122,6 +127,24 @@ theorem keysGe_occurrences (d : Int) (utc : HQ) (hs : Sorted utc.vals) (hu : utc
   simp [HQ.phys, get_eq_zero_of_not_mem _ _ hnot]
 
 /-! ## twins -/
+
+/-- **system-level causality of a dated simulation**: every value recomputed along the chain has no
+hour before the date, for every rule system with causal rules, every chain in an order that respects
+the reads, provided every value the chain reads from outside has been cut at the date -/
+theorem simulated_values_start_at_date {N : Type} [DecidableEq N] (S : Efp.Theory.RuleSys N Series) (d : Int)
+    (hcausal : ∀ n σ, (∀ m ∈ S.reads n, KeysGe d (σ m)) → KeysGe d (S.rule n σ))
+    (chain : List N) (hnd : chain.Nodup)
+    (hord : ∀ l₁ n l₂, chain = l₁ ++ n :: l₂ → ∀ m ∈ S.reads n, m ∉ l₂ ∧ m ≠ n)
+    (σ : N → Series) (hcut : ∀ n ∈ chain, ∀ m ∈ S.reads n, m ∉ chain → KeysGe d (σ m)) :
+    ∀ n ∈ chain, KeysGe d (Efp.Theory.run S σ chain n) :=
+  Efp.Theory.run_pred S (KeysGe d) hcausal chain hnd σ hord hcut
+
+/-- … and what "cut at the date" provides: the filtered ancestors satisfy the hypothesis -/
+theorem cut_ancestors_satisfy_hypothesis {N : Type} [DecidableEq N] (d : Int) (σ : N → Series) (outside : List N) :
+    ∀ m ∈ outside, KeysGe d ((fun k => if k ∈ outside then filterFrom d (σ k) else σ k) m) := by
+  intro m hm
+  simp only [hm, if_true]
+  exact keysGe_filterFrom d (σ m)
 
 /-- every recomputed baseline value is paired with its simulated twin and vice versa: the two lists
 have the same length and are zipped position by position -/
